@@ -30,6 +30,10 @@ def relevant(prop, rec, res):
     kind = res["kind"]
     if kind == "unsupported":
         return True
+    if prop == "C07" and "Network.is_valid" in rec.get("func", "") and kind in ("post", "inv"):
+        # C07 is about the networks validation accepts: that a valid verdict implies the nine conditions
+        # (which the element layer is verified under) is part of it
+        return res["label"].startswith("valid =>") or kind == "inv" or "returns (verdict" in res["label"]
     if kind not in KINDS[prop]:
         return False
     engine_pre = kind == "pre" and "engine forwarded" in res["label"]
